@@ -13,7 +13,7 @@ import (
 
 // C17 — registry sources resolve to the newest allowed version.
 
-var c17Universe = []string{"0.0.0", "0.9.0", "1.0.0", "1.0.20240115", "1.1.0-beta", "1.1.0", "2.0.0-rc1", "2.0.0"} // incl. a date-stamped patch number (> 2^21)
+var c17Universe = []string{"0.0.0-beta1", "0.0.0", "0.9.0", "1.0.0", "1.0.20240115", "1.1.0-beta", "1.1.0", "2.0.0-rc1", "2.0.0"} // incl. a date-stamped patch number (> 2^21)
 
 const c17Pkg = "example.com/ns/vers/sys"
 
